@@ -517,11 +517,20 @@ Proof.
 Qed.
 
 (* ================================================================ assembly: every line of the rendered file *)
+(* a '#' is followed by one of the characters after which Codecs.open leaves a comment line alone *)
+Definition typical_shape (b : str) : Prop :=
+  b = [35] \/ hd 0 b <> 35 \/ exists c r, b = 35 :: c :: r /\ In c [32; 46; 58; 44; 124; 126].
+
 Definition lexes (body : str) (t : lexed) : Prop :=
+  typical_shape body /\ trimmed body /\ body <> [] /\
   forall first lead trail, all_space lead -> all_space trail -> lex_line first (lead ++ body ++ trail) = t.
 
-Lemma lexes_intro body t : trimmed body -> body <> [] -> hd 0 body <> bom -> lex_line false body = t -> lexes body t.
-Proof. intros Ht Hne Hb Hl first lead trail H1 H2. rewrite lex_padded by assumption. exact Hl. Qed.
+Lemma lexes_intro body t : typical_shape body -> trimmed body -> body <> [] -> hd 0 body <> bom -> lex_line false body = t -> lexes body t.
+Proof. intros Hs Ht Hne Hb Hl. split; [exact Hs|]. split; [exact Ht|]. split; [exact Hne|].
+  intros first lead trail H1 H2. rewrite lex_padded by assumption. exact Hl. Qed.
+
+Ltac solve_shape := first [ left; reflexivity | right; left; discriminate
+                          | right; right; eexists _, _; split; [reflexivity | cbn [In]; tauto] ].
 
 Lemma trimmed_prefix pre inner : pre <> [] -> ~ is_space (hd 0 pre) -> trimmed inner -> inner <> [] -> trimmed (pre ++ inner).
 Proof. intros Hp Hh Ht Hne. destruct (trimmed_parts _ Ht Hne) as [_ Hl]. now apply trimmed_app_last. Qed.
@@ -587,11 +596,11 @@ Proof. discriminate. Qed.
 Lemma lexes_cont obs c : chunk_ok dec c -> lexes (obs_pre obs ++ quoted_text c) (cont_tok obs false c).
 Proof.
   intros Hc. destruct (quoted_trimmed c) as (Htr & Hne & _ & Hb). destruct obs; cbn [obs_pre app].
-  - apply lexes_intro; [| discriminate | apply bom_facts |].
+  - apply lexes_intro; [solve_shape| | discriminate | apply bom_facts |].
     + change (35 :: 126 :: sp_obs sp ++ quoted_text c) with ([35; 126] ++ sp_obs sp ++ quoted c).
       rewrite app_assoc. apply trimmed_prefix; [discriminate|apply not_space_chars|exact Htr|exact Hne].
     + apply (lex_obs_cont dec (sp_obs sp) c Hobs Hc).
-  - apply lexes_intro; [exact Htr|exact Hne|exact Hb|]. apply (lex_cont dec c Hc).
+  - apply lexes_intro; [solve_shape|exact Htr|exact Hne|exact Hb|]. apply (lex_cont dec c Hc).
 Qed.
 
 Lemma lexes_kw obs y kw c : kw_of y = Some kw -> chunk_ok dec c ->
@@ -601,11 +610,11 @@ Proof.
   destruct (kw_facts y kw Hk) as (_ & Hkne & _ & _ & Hb).
   assert (Hine : kw ++ sp_kw sp ++ quoted c <> []) by (destruct kw; [congruence|discriminate]).
   destruct obs; cbn [obs_pre app].
-  - apply lexes_intro; [| discriminate | apply bom_facts |].
+  - apply lexes_intro; [solve_shape| | discriminate | apply bom_facts |].
     + change (35 :: 126 :: sp_obs sp ++ kw ++ sp_kw sp ++ quoted_text c) with ([35; 126] ++ sp_obs sp ++ kw ++ sp_kw sp ++ quoted c).
       rewrite app_assoc. apply trimmed_prefix; [discriminate|apply not_space_chars|exact Htr|exact Hine].
     + apply (lex_obs_kw dec y kw (sp_obs sp) (sp_kw sp) c Hk Hobs Hs Hne Hc).
-  - apply lexes_intro; [exact Htr|exact Hine| |apply (lex_kw dec y kw (sp_kw sp) c Hk Hs Hne Hc)].
+  - apply lexes_intro; [right; left; destruct y; cbn in Hk; inversion Hk; discriminate|exact Htr|exact Hine| |apply (lex_kw dec y kw (sp_kw sp) c Hk Hs Hne Hc)].
     destruct kw; [congruence|exact Hb].
 Qed.
 
@@ -625,11 +634,11 @@ Proof.
   assert (Ebody : w_msgstr ++ [91] ++ index_text i ++ [93] ++ sp_mx sp ++ quoted_text c = mx_cur i (sp_mx sp) c).
   { unfold mx_cur, k_msgstr_br. rewrite <- !app_assoc. reflexivity. }
   rewrite Ebody. destruct obs; cbn [obs_pre app].
-  - apply lexes_intro; [| discriminate | apply bom_facts |].
+  - apply lexes_intro; [solve_shape| | discriminate | apply bom_facts |].
     + change (35 :: 126 :: sp_obs sp ++ mx_cur i (sp_mx sp) c) with ([35; 126] ++ sp_obs sp ++ mx_cur i (sp_mx sp) c).
       rewrite app_assoc. apply trimmed_prefix; [discriminate|apply not_space_chars| |]; rewrite Eb; [exact Htr|discriminate].
     + apply (lex_obs_mx (sp_obs sp) i (sp_mx sp) c Hobs Hi Hs Hne).
-  - apply lexes_intro; [rewrite Eb; exact Htr|rewrite Eb; discriminate|rewrite Eb; apply bom_facts|].
+  - apply lexes_intro; [right; left; rewrite Eb; discriminate|rewrite Eb; exact Htr|rewrite Eb; discriminate|rewrite Eb; apply bom_facts|].
     apply (lex_mx dec i (sp_mx sp) c Hi Hs Hne Hc).
 Qed.
 
@@ -653,7 +662,7 @@ Definition toks_cline_x (obs : bool) (cl : cline) : list lexed :=
 Lemma lexes_tc t : trimmed t -> lexes (35 :: match t with [] => [] | _ => 32 :: t end) (LLine false true (AProc Ytc (tc_cur t))).
 Proof.
   intros Ht. change (35 :: match t with [] => [] | _ => 32 :: t end) with (tc_cur t).
-  apply lexes_intro; [| discriminate | apply bom_facts | apply (lex_cline_simple (CTrans t) (or_intror I) Ht)].
+  apply lexes_intro; [unfold tc_cur; destruct t; solve_shape| | discriminate | apply bom_facts | apply (lex_cline_simple (CTrans t) (or_intror I) Ht)].
   unfold tc_cur. destruct t as [|c t']; [split; apply not_space_chars|].
   change (35 :: 32 :: c :: t') with ([35; 32] ++ (c :: t')). apply trimmed_prefix; [discriminate|apply not_space_chars|exact Ht|discriminate].
 Qed.
@@ -667,19 +676,10 @@ Proof.
       [exists [35; 46; sep]|exists [35; 58; sep]|exists [35; 44; sep]]; repeat split; discriminate. }
   destruct E as (a & Ea & Ha & Hh).
   assert (Htr : trimmed (t0 ++ sep :: s)) by (rewrite Ea; apply trimmed_app_last; try assumption; rewrite Hh; apply not_space_chars).
-  apply lexes_intro; [exact Htr| | |].
+  apply lexes_intro; [cbn [In] in Hin; destruct Hin as [Hin|[Hin|[Hin|[]]]]; inversion Hin; subst; solve_shape|exact Htr| | |].
   - rewrite Ea. destruct a; [congruence|discriminate].
   - rewrite Ea. destruct a; [congruence|]. cbn [hd app] in *. rewrite Hh. apply bom_facts.
   - apply lex_hash_line; [cbn [In] in *; tauto|exact Hsep|exact Htr].
-Qed.
-
-Lemma lexes_prev_obsolete_line rest : lexes ([35; 126; 124] ++ sp_prev sp ++ quoted rest ++ []) LPrevObsolete
-  /\ forall kw, kw <> [] -> ~ is_space (hd 0 kw) \/ True -> True.
-Proof. split; [|auto]. rewrite app_nil_r. destruct Hprev as [Hne Hs].
-  assert (Htr : trimmed ([35; 126; 124] ++ sp_prev sp ++ quoted rest)).
-  { rewrite app_assoc. apply trimmed_prefix; [discriminate|apply not_space_chars|apply quoted_trimmed|discriminate]. }
-  apply lexes_intro; [exact Htr|discriminate|apply bom_facts|].
-  apply lex_prev_obsolete; [now apply all_space_ends|exact Htr].
 Qed.
 
 Lemma lexes_obsolete_prev_any x : x <> [] -> ~ is_space (last x 0) ->
@@ -688,7 +688,7 @@ Proof.
   intros Hx Hl. destruct Hprev as [Hne Hs].
   assert (Htr : trimmed ([35; 126; 124] ++ sp_prev sp ++ x)).
   { rewrite app_assoc. apply trimmed_app_last; [discriminate|apply not_space_chars|exact Hx|exact Hl]. }
-  apply lexes_intro; [exact Htr|discriminate|apply bom_facts|].
+  apply lexes_intro; [solve_shape|exact Htr|discriminate|apply bom_facts|].
   apply lex_prev_obsolete; [now apply all_space_ends|exact Htr].
 Qed.
 
@@ -723,10 +723,10 @@ Proof.
       destruct Hk as (y' & kw & Hk1 & Hk2 & Hk3). rewrite Hk3.
       destruct (kw_line_facts y' kw (sp_kw sp) c Hk1 Hks Hkne) as (Htr & _).
       constructor.
-      * rewrite <- app_assoc. apply lexes_intro; [| discriminate | apply bom_facts |].
+      * rewrite <- app_assoc. apply lexes_intro; [solve_shape| | discriminate | apply bom_facts |].
         -- rewrite app_assoc. apply trimmed_prefix; [discriminate|apply not_space_chars|exact Htr|]. destruct kw; [discriminate Hk1 || (destruct y'; discriminate)|discriminate].
         -- apply (lex_prev_kw (prev_sym k) kw (sp_prev sp) (sp_kw sp) c Hk2 (conj Hpne Hps) Hks Hkne).
-      * apply Forall2_map2. intros c' _. rewrite <- app_assoc. apply lexes_intro; [| discriminate | apply bom_facts |].
+      * apply Forall2_map2. intros c' _. rewrite <- app_assoc. apply lexes_intro; [solve_shape| | discriminate | apply bom_facts |].
         -- rewrite app_assoc. apply trimmed_prefix; [discriminate|apply not_space_chars|apply quoted_trimmed|discriminate].
         -- apply (lex_prev_cont (sp_prev sp) c' (conj Hpne Hps)).
 Qed.
@@ -832,7 +832,7 @@ Proof.
   induction 1 as [| bodies ws raws Hws Hf IH | body lead trail bodies raws Hl Ht Hf IH]; intros toks H2 first.
   - inversion H2; subst. constructor.
   - cbn [lex_lines]. rewrite (lex_blank first ws Hws (or_intror I)). constructor. now apply IH.
-  - inversion H2 as [|? t ? toks' Hlex H2']; subst. cbn [lex_lines]. rewrite (Hlex first lead trail Hl Ht).
+  - inversion H2 as [|? t ? toks' Hlex H2']; subst. cbn [lex_lines]. destruct Hlex as (_ & _ & _ & Hlex). rewrite (Hlex first lead trail Hl Ht).
     constructor. now apply IH.
 Qed.
 
